@@ -126,7 +126,9 @@ type stats struct {
 	Exhaustive bool           `json:"exhaustive,omitempty"`
 	Extra      map[string]any `json:"extra,omitempty"`
 
-	hashset map[uint64]struct{}
+	hashset      map[uint64]struct{}
+	haveFallback bool
+	fallback     any
 }
 
 var (
@@ -171,6 +173,15 @@ func (s *stats) record(caseJSON []byte, sample any, res Result) {
 			s.Samples = append(s.Samples, sample)
 		}
 	}
+	if len(s.Samples) == 0 && !s.haveFallback {
+		// keep at least one written-out case even if all cases are large
+		s.haveFallback = true
+		if len(caseJSON) < 6000 {
+			s.fallback = sample
+		} else {
+			s.fallback = string(caseJSON[:3000]) + "...(truncated)"
+		}
+	}
 }
 
 // Note records an extra key in the stats of a sub-check (e.g. fuzz executions).
@@ -194,6 +205,9 @@ func FlushStats() {
 	defer statsMu.Unlock()
 	var list []*stats
 	for _, s := range allStats {
+		if len(s.Samples) == 0 && s.haveFallback {
+			s.Samples = append(s.Samples, s.fallback)
+		}
 		s.Hashes = s.Hashes[:0]
 		for h := range s.hashset {
 			s.Hashes = append(s.Hashes, h)
@@ -240,18 +254,24 @@ var (
 
 func Findings() []Finding {
 	findingsOnce.Do(func() {
-		b, err := os.ReadFile(filepath.Join(Root(), "known_findings.json"))
-		if err != nil {
-			return
+		files := []string{filepath.Join(Root(), "known_findings.json")}
+		more, _ := filepath.Glob(filepath.Join(Root(), "known_findings.d", "*.json"))
+		sort.Strings(more)
+		files = append(files, more...)
+		for _, fn := range files {
+			b, err := os.ReadFile(fn)
+			if err != nil {
+				continue
+			}
+			var f struct {
+				Findings []Finding `json:"findings"`
+			}
+			if err := json.Unmarshal(b, &f); err != nil {
+				fmt.Fprintf(os.Stderr, "kit: %s: %v\n", fn, err)
+				continue
+			}
+			findings = append(findings, f.Findings...)
 		}
-		var f struct {
-			Findings []Finding `json:"findings"`
-		}
-		if err := json.Unmarshal(b, &f); err != nil {
-			fmt.Fprintf(os.Stderr, "kit: known_findings.json: %v\n", err)
-			return
-		}
-		findings = f.Findings
 	})
 	return findings
 }
